@@ -30,13 +30,17 @@ open KG KG.Model.Lifecycle KG.Spec.Lifecycle KG.Lemmas.Lifecycle
     the plain one, endpoint contexts derive from the cluster's, removed endpoints leave the map and are cancelled,
     health-check loops run under (and watch) a context derived from the `ctx` argument of `EnsureGatewayHealthCheck`,
     and **both** of its call sites (new endpoint; known endpoint being disabled / re-enabled) hand over the endpoint's
-    own context, the dispatcher's goroutine cancels
+    own context, `PickOne` — the pick behind `ClientFor`, i.e. behind the TokenReview / SubjectAccessReview webhook
+    calls — is nothing but `Pop()` over `AllEndpoints()` (so `pickable` / `c15_endpoint_removed` / `c15_endpoint_forever`
+    speak about the authentication / authorization traffic as well as about proxied requests), the dispatcher's
+    goroutine cancels
     the proxied request when the endpoint's context ends. The model `KG.Model.Lifecycle` is the mirror of exactly this
     shape; if a fact changes, this obligation fails. -/
 theorem c15_source_shape :
     Gen.C15.deleteForServerNamesStops = true ∧ Gen.C15.deleteLoopVisitsEveryName = true ∧
     Gen.C15.updateLoopsVisitEveryName = true ∧ Gen.C15.aliasDropStops = false ∧
-    Gen.C15.endpointCtxChildOfCluster = true ∧ Gen.C15.removedEndpointLeavesMap = true ∧
+    Gen.C15.endpointCtxChildOfCluster = true ∧ Gen.C15.pickOneIsPlainPop = true ∧
+    Gen.C15.removedEndpointLeavesMap = true ∧
     Gen.C15.removedEndpointCancelled = true ∧ Gen.C15.healthCheckCtxChildOfEndpoint = true ∧
     Gen.C15.hcCtxAtCreateIsEndpoint = true ∧ Gen.C15.hcCtxAtUpdateIsEndpoint = true ∧
     Gen.C15.dispatcherWatchesEndpoint = true := by decide
